@@ -310,6 +310,48 @@ func runC11(c *Ctx) {
 		// R5: the append path is handed out by AppendPath()/GenerateRightWitness as it is;
 		// Append must build a new one (an earlier result must stay the path of the earlier size)
 		checkExposedSliceImmutable(c, "C11.R5 handed-out-path-immutable", T_, "appendPath", methods)
+		// R10: root and append path are both functions of the leaf list: a method that stores a
+		// new root (leaves changed) recomputes the append path on the same successful paths —
+		// a later Append folds the new leaf with the append path it finds
+		{
+			n10 := 0
+			for _, fn := range methods {
+				if fn == load {
+					continue
+				}
+				ff := factsOf(fn)
+				for _, st := range storesToField(fn, T_, "root") {
+					n10++
+					// on every successful path through this store, appendPath is stored too (before or after)
+					after := reachesReturnAvoiding(st, func(in ssa.Instruction) bool {
+						s2, ok := in.(*ssa.Store)
+						if !ok {
+							return false
+						}
+						fa, ok := s2.Addr.(*ssa.FieldAddr)
+						if !ok {
+							return false
+						}
+						o, stt := ownerOfFieldBase(fa.X.Type())
+						return o == T_ && fieldNameOf(stt.Field(fa.Field)) == "appendPath"
+					}, func(r *ssa.Return) bool {
+						k := classifyReturn(ff, r)
+						return k == RetNil || k == RetNoErr || k == RetMaybe
+					})
+					before := false
+					for _, s2 := range storesToField(fn, T_, "appendPath") {
+						if instrDominates(s2, st) {
+							before = true
+						}
+					}
+					c.Require("C11.R10 append-path-follows-root", FuncKey(fn)+": assigns root", p.InstrPos(st), "a method that stores a new root also stores the append path of the same leaf list (before the store or on every successful path after it)", before || after == nil, pathStr(after))
+				}
+			}
+			c.MinInstances("C11.R10 append-path-follows-root", n10, 2)
+		}
+		if trim := c.Anchor("pkg/trie/rmt.intToBytesWithoutLeadingZero"); trim != nil {
+			checkLeadingTrimFirstMatch(c, "C11.R9 leading-trim-stops-at-first-match", trim)
+		}
 		// R7: predicted and real append agree on which siblings the new head absorbs
 		c.MinInstances("C11.R7 fold-complements-kept-suffix", checkFoldComplementsKeptSuffix(c, "C11.R7 fold-complements-kept-suffix", "pkg/trie/rmt."), 2)
 		c.Count("non-persisted mutable tree fields", extra)
@@ -455,4 +497,97 @@ func checkFoldComplementsKeptSuffix(c *Ctx, rule string, pkgPrefix string) int {
 		}
 	}
 	return n
+}
+
+// checkLeadingTrimFirstMatch — C11.R9. The bit-string helpers turn a size into its binary
+// digits by trimming the leading zero bytes of its 8-byte encoding and then taking
+// bitlen(size) bits from the end. The trim must stop at the FIRST non-zero byte: an index
+// that keeps being overwritten while the loop runs ends at the last non-zero byte, the
+// buffer is then shorter than the bit length for every size with a non-zero byte below its top byte (257 = 0x0101), and the slice
+// res[len(res)-size:] has a negative bound — CalculateRootFromAppendPath panics.
+func checkLeadingTrimFirstMatch(c *Ctx, rule string, fn *ssa.Function) {
+	p := c.P
+	n := 0
+	loops := naturalLoops(fn)
+	for _, b := range fn.Blocks {
+		for _, in := range b.Instrs {
+			sl, ok := in.(*ssa.Slice)
+			if !ok || sl.Low == nil {
+				continue
+			}
+			n++
+			// does the lower bound come from a loop-header φ that is fed, around the loop, by a value
+			// depending on the loop's own counter?
+			bad := ""
+			seen := map[ssa.Value]bool{}
+			var walk func(v ssa.Value, d int)
+			walk = func(v ssa.Value, d int) {
+				if v == nil || seen[v] || d > 6 {
+					return
+				}
+				seen[v] = true
+				phi, ok := v.(*ssa.Phi)
+				if !ok {
+					return
+				}
+				for _, li := range loops {
+					if li.Header != phi.Block() {
+						continue
+					}
+					for i, pred := range phi.Block().Preds {
+						if !li.Blocks[pred] {
+							continue // entry edge
+						}
+						// back edge: the carried value
+						carried := phi.Edges[i]
+						if dependsOnLoopCounter(carried, li, 0) {
+							bad = "the trim index " + T(phi).String() + " is overwritten on every later match (carried around the loop)"
+						}
+					}
+				}
+				for _, e := range phi.Edges {
+					walk(e, d+1)
+				}
+			}
+			walk(sl.Low, 0)
+			c.Require(rule, FuncKey(fn)+": "+T(sl).String(), p.InstrPos(sl), "leading zero bytes are trimmed up to the first non-zero byte (the search stops at its first match)", bad == "", bad)
+		}
+	}
+	c.MinInstances(rule, n, 1)
+}
+
+// dependsOnLoopCounter: v is, through φs of the loop body, the loop's induction variable
+// (a header φ stepped by a constant) or an expression of it.
+func dependsOnLoopCounter(v ssa.Value, li *loopInfo, d int) bool {
+	if v == nil || d > 6 {
+		return false
+	}
+	switch x := v.(type) {
+	case *ssa.Phi:
+		if x.Block() == li.Header {
+			// an induction variable: some back-edge value is x ± const
+			for i, pred := range x.Block().Preds {
+				if !li.Blocks[pred] {
+					continue
+				}
+				if bo, ok := x.Edges[i].(*ssa.BinOp); ok && (bo.X == ssa.Value(x) || bo.Y == ssa.Value(x)) {
+					return true
+				}
+			}
+			return false
+		}
+		if !li.Blocks[x.Block()] {
+			return false
+		}
+		for _, e := range x.Edges {
+			if dependsOnLoopCounter(e, li, d+1) {
+				return true
+			}
+		}
+	case *ssa.BinOp:
+		return dependsOnLoopCounter(x.X, li, d+1) || dependsOnLoopCounter(x.Y, li, d+1)
+	case *ssa.Convert:
+		return dependsOnLoopCounter(x.X, li, d+1)
+	}
+	return false
 }
